@@ -2,6 +2,7 @@ mod cfgx;
 mod common;
 mod dequex;
 mod model;
+mod schedx;
 mod seqx;
 mod sketchx;
 mod sut;
@@ -41,6 +42,24 @@ fn main() {
             let capw: f64 = std::env::var("MMVERIF_JOB_WALL_S").ok().and_then(|s| s.parse().ok()).unwrap_or(3600.0);
             println!("{}", dequex::run(n, d, capw).to_json());
         }
+        "schedx" => {
+            // schedx <family> <tier> <bound> <part> <parts> [max schedules per program]
+            let bound: u32 = args[4].parse().unwrap();
+            let part: usize = args[5].parse().unwrap();
+            let parts: usize = args[6].parse().unwrap();
+            let maxs: u64 = args.get(7).and_then(|s| s.parse().ok()).unwrap_or(2_000_000);
+            let capw: f64 = std::env::var("MMVERIF_JOB_WALL_S").ok().and_then(|s| s.parse().ok()).unwrap_or(3600.0);
+            match schedx::run_family(&args[2], &args[3], bound, part, parts, maxs, capw) {
+                Ok(r) => println!("{}", r.to_json()),
+                Err(m) => {
+                    eprintln!("MACHINERY: {m}");
+                    std::process::exit(2);
+                }
+            }
+        }
+        "overshoot" => {
+            println!("{}", seqx::overshoot());
+        }
         "cfgx" => {
             println!("{}", cfgx::run().to_json());
         }
@@ -50,6 +69,13 @@ fn main() {
                 seqx::replay(w)
             } else if w.starts_with("sketchx|") {
                 sketchx::replay(w)
+            } else if w.starts_with("overshoot|") {
+                println!("re-run: mmverif overshoot (the whole family takes well under a second)");
+                let out = seqx::overshoot();
+                println!("{out}");
+                if out.contains("\"viol_total\":0") { vec![] } else { vec![common::Violation { prop: "C04", sig: "overshoot".into(), detail: out, witness: w.to_string() }] }
+            } else if w.starts_with("schedx|") {
+                schedx::replay(w)
             } else if w.starts_with("dequex|") {
                 dequex::replay(w)
             } else {
